@@ -11,7 +11,7 @@ RULE = ("channel_grid: every ordered pair of ChannelIdentifier over qubit ids -2
         "identifiers (ids -50..50), pairs of edge and qubit identifiers over a 5-letter name alphabet (forces "
         "collisions) plus near-miss spellings of every name (other letter case, surrounding blank, zero padding, full-width "
         "digits, proper prefix / extension, trailing NUL, casefold-equal letters) incl. foreign-type operands, and sequences of hashable elements (ints, strings, tuples, qubit and "
-        "edge ids). edge_orientation: every Surface-17 edge and four non-edges x the device layer and the three shipped repetition-code layouts: everything the layout answers about an edge (contains, parity group, membership and count in edge_ids, per gate layer contains / membership, gate-sequence lookup; exceptions by type) must be the same for both orientations, and layer.contains(edge) must agree with membership in the layer's edge list (exhaustive). Non-trivial = the pair shares a qubit / the edges share >= 1 qubit name / the sequence contains a "
+        "edge ids). channel_lists: generated circuits of 1-6 waits / sub-circuits of waits on 4 qubits x {ALL, MICROWAVE, FLUX, READOUT}: the channel identifiers the circuit, each sub-circuit and occupied_qubit_channels report are exactly the distinct (qubit, channel) identifiers occupied, each once (an ALL identifier and a specific one of the same qubit match but are different elements). edge_orientation: every Surface-17 edge and four non-edges x the device layer and the three shipped repetition-code layouts: everything the layout answers about an edge (contains, parity group, membership and count in edge_ids, per gate layer contains / membership, gate-sequence lookup; exceptions by type) must be the same for both orientations, and layer.contains(edge) must agree with membership in the layer's edge list (exhaustive). Non-trivial = the pair shares a qubit / the edges share >= 1 qubit name / the sequence contains a "
         "duplicate; distinct = distinct canonical JSON of the generated case.")
 ASSUMPTIONS = [
     "oracle for channel matching: same qubit and (same channel or one side is ALL) - transcribed from the property statement",
@@ -290,6 +290,61 @@ def body_orientation(case, ctx):
                      f"layers' edge lists = {fwd['layer_edge_membership']}")
 
 
+# ------------------------------------------------------------------------------------------------------------------
+# de-duplication as the circuit uses it: the channel identifiers a (sub-)circuit occupies
+# ------------------------------------------------------------------------------------------------------------------
+def strat_channel_lists():
+    from hypothesis import strategies as st
+    op = st.fixed_dictionaries({"q": st.integers(0, 3), "ch": st.sampled_from(["ALL", "MICROWAVE", "FLUX", "READOUT"])})
+    leaf_list = st.lists(op, min_size=1, max_size=5)
+    item = op | leaf_list.map(lambda ops: {"sub": ops})
+    return st.lists(item, min_size=1, max_size=6)
+
+
+def body_channel_lists(case, ctx):
+    from qce_circuit.language.declarative_circuit import DeclarativeCircuit
+    from qce_circuit.structure.circuit_operations import Wait
+    from qce_circuit.structure.intrf_circuit_operation import QubitChannel
+    flat = [(o["q"], o["ch"]) for it in case for o in (it["sub"] if "sub" in it else [it])]
+    mixed = any(a[0] == b[0] and a[1] != b[1] and "ALL" in (a[1], b[1]) for a in flat for b in flat)
+    ctx.case(case, nontrivial=mixed, classes=[f"all_and_specific_on_one_qubit={mixed}", f"nested={any('sub' in it for it in case)}"])
+
+    def first_occurrences(pairs):
+        seen, out = set(), []
+        for p in pairs:
+            if p not in seen:
+                seen.add(p)
+                out.append(p)
+        return out
+
+    got = None
+    with ctx.lib("channel identifiers of a circuit"):
+        top = DeclarativeCircuit()
+        blocks = []
+        for it in case:
+            if "sub" in it:
+                sub = DeclarativeCircuit()
+                for o in it["sub"]:
+                    sub.add(Wait(o["q"], qubit_channel=QubitChannel[o["ch"]]))
+                blocks.append((top.add(sub), [(o["q"], o["ch"]) for o in it["sub"]]))
+            else:
+                top.add(Wait(it["q"], qubit_channel=QubitChannel[it["ch"]]))
+        as_pairs = lambda ids: [(c.id, c.channel.name) for c in ids]      # noqa: E731
+        got = {"structure": as_pairs(top.circuit_structure.channel_identifiers), "occupied": as_pairs(top.occupied_qubit_channels),
+               "blocks": [(as_pairs(b.channel_identifiers), want) for b, want in blocks]}
+    if got is None:
+        return
+    # every occupied (qubit, channel) identifier once; as a set for the circuit (its listing order is a C02 matter), in
+    # first-occurrence order for a block of implicitly sequenced single-qubit operations on one line each
+    want = first_occurrences(flat)
+    for name in ("structure", "occupied"):
+        if sorted(got[name]) != sorted(want) or len(got[name]) != len(set(got[name])):
+            ctx.fail("channel-list", f"{name}: the circuit reports channel identifiers {got[name]}, it occupies exactly {want} (each once)")
+    for ids, pairs in got["blocks"]:
+        if sorted(ids) != sorted(first_occurrences(pairs)):
+            ctx.fail("channel-list", f"a sub-circuit holding waits on {pairs} reports channel identifiers {ids}")
+
+
 def strat_unique():
     from hypothesis import strategies as st
     atom = (st.integers(-3, 5) | st.sampled_from(["a", "b", "", "ab"]) | st.tuples(st.integers(0, 2), st.integers(0, 2)).map(list)
@@ -354,6 +409,7 @@ def parts():
         Part("channel_triples", body_channel_triple, strategy=strat_channel_triples, quick=3000, thorough=20000, fuzz_quick=2000, fuzz_thorough=30000),
         Part("edges", body_edges, strategy=strat_edges, quick=3000, thorough=10000),
         Part("edge_orientation", body_orientation, items=items_orientation, exhaustive=True),
+        Part("channel_lists", body_channel_lists, strategy=strat_channel_lists, quick=400, thorough=3000),
         Part("qubit_ids", body_qubits, strategy=strat_qubits, quick=2000, thorough=10000),
         Part("unique", body_unique, strategy=strat_unique, quick=3000, thorough=20000, fuzz_quick=2000, fuzz_thorough=30000),
     ]
